@@ -298,3 +298,14 @@ CHECKS["C22"] = dict(
     design_ref="DESIGN.md 9/C22, 7.5",
     level_text="Exhaustive within bounds on the real locks and monitors (for two threads the bound is high enough to cover most interleavings of these short programs).",
 )
+
+CHECKS["C21"] = dict(
+    title="free lists",
+    units=[dict(name="freelist", src="harness/freelist.cpp")],
+    rule="every schedule with <= c preemptions of put/get programs (all unordered pairs of 7 thread programs over {get, put-back, put-own} on lists pre-filled with 0..2 nodes, plus 3-thread programs in which a getter "
+         "holds a reference while others take the node and put it back); outcome = the log of puts and gets with node identities; every program makes two threads compete for the same nodes",
+    explanation="FreeList, TaggedFreeList (16-byte CAS through the instrumented atomics) and CachedFreeList over both (cache size 4): owner map - a node returned by get() is held by nobody; at the quiescent point "
+                "draining the list yields exactly the nodes that were put and not taken, each once",
+    design_ref="DESIGN.md 9/C21, 7.5",
+    level_text="Exhaustive within bounds on the real free lists.",
+)
